@@ -595,8 +595,7 @@ def seq_parts(t):
                 m[1][1][0] == a and m[1][1][1][0] == "rec":
             base = seq_parts(a)
             x = m[3][0]
-            its = {y[1] for y in _walk(x) if isinstance(y, tuple)
-                   and len(y) == 2 and y[0] == "elem"}
+            its = set(_outer_elems(x))
             if base is not None and len(its) == 1:
                 return base + [("each", x, next(iter(its)))]
     return None
@@ -606,3 +605,25 @@ def no_uids(t):
     """('var', name, uids) -> ('var', name): the same variable read at two
     program points compares equal."""
     return map_term(t, lambda x: x[:2] if x[0] == "var" else x)
+
+
+def subst_params(t, mapping):
+    """Replace ('param', p) / ('lparam', p) by mapping[p]."""
+    def f(x):
+        if x[0] in ("param",) and x[1] in mapping:
+            return mapping[x[1]]
+        return x
+    return map_term(t, f)
+
+
+def _outer_elems(t):
+    """iterables of the elem(...) terms of t that are not nested inside
+    another elem's iterable"""
+    if not isinstance(t, tuple) or not t:
+        return
+    if t[0] in ("elem", "idx") and len(t) == 2:
+        yield t[1]
+        return
+    for x in t:
+        if isinstance(x, tuple):
+            yield from _outer_elems(x)
